@@ -10,9 +10,11 @@ KIND = {
     "L": "L\tA\t+\tA\t-\t*", "C": "C\tA\t+\tC\t+\t0\t*", "P": "P\tp\tA+\t*",
     "E": "E\t*\tB+\tB-\t0\t2\t0\t2\t*", "G": "G\t*\tB+\tD-\t1\t*", "F": "F\tB\tx+\t0\t2\t0\t2\t*", "O": "O\to\tB+", "U": "U\tu\tB",
     "K": "# comment",
+    # segments whose syntax has to be told from the fields before the tags: tags of every datatype (the syntax is inferred by counting the fields that do not look like tags)
+    "S1t": "S\tT\tACGT\tLN:i:4\tab:Z:s\tcd:J:[1]\tef:H:0A\tgh:B:c,1,-2\tij:A:x\tkl:f:0.5", "S2t": "S\tW\t4\tACGT\tab:Z:s\tcd:J:[1]\tef:H:0A\tgh:B:f,1.5\tij:A:x\tkl:f:0.5",
 }
-V1 = {"H1", "S1", "S1b", "L", "C", "P"}
-V2 = {"H2", "S2", "S2b", "E", "G", "F", "O", "U"}
+V1 = {"H1", "S1", "S1b", "S1t", "L", "C", "P"}
+V2 = {"H2", "S2", "S2b", "S2t", "E", "G", "F", "O", "U"}
 
 
 def oracle(kinds, explicit):
@@ -110,7 +112,7 @@ if __name__ == "__main__":
     tier, seed = harness.args()
     cs = cases(tier, seed)
     res = harness.run(cs, check,
-                      rule="every set of <=%d of the %d line kinds (headers without/with VN 1.0/2.0/3.0, GFA1/GFA2 segment syntax, L C P, E G F O U, comment) x explicit version None/gfa1/gfa2, "
+                      rule="every set of <=%d of the %d line kinds (headers without/with VN 1.0/2.0/3.0, GFA1/GFA2 segment syntax without tags and with tags of every datatype, L C P, E G F O U, comment) x explicit version None/gfa1/gfa2, "
                            "in ALL orders of its lines (added one by one, then process_line_queue); oracle: version = function of the set of kinds, VersionError iff GFA1 and GFA2 evidence are mixed or the VN is unknown; "
                            "every order and every entry point (add_line of strings one by one, of gfapy.Line instances one by one, Gfa(list), Gfa.from_file) must give the same outcome; every line is in the Gfa exactly once. one evaluation = one set with all its orders" % (3 if tier == "quick" else 4, len(KIND)),
                       bound="sets of <=%d kinds, all permutations" % (3 if tier == "quick" else 4), exhaustive=True)
